@@ -63,6 +63,9 @@ func (w *World) Sites(fn *ssa.Function, e Effect) []Site {
 	w.FuncsAnalysed[fn] = true
 	var out []Site
 	for _, b := range fn.Blocks {
+		if b == fn.Recover && strings.HasPrefix(e.Kind, "ret") {
+			continue // synthetic recover block: not a source-level return
+		}
 		for _, in := range b.Instrs {
 			switch e.Kind {
 			case "call":
@@ -456,6 +459,9 @@ func (r *Report) Count(key, fnKey string, effs []Effect, exits string, min, max 
 	}
 	ex := map[*ssa.BasicBlock]bool{}
 	for _, b := range fn.Blocks {
+		if b == fn.Recover {
+			continue
+		}
 		if rt := returnOf(b); rt != nil {
 			if exits == "ok" && returnIsFailure(fn, rt) {
 				continue
@@ -1601,11 +1607,11 @@ func (r *Report) RetHas(key, fnKey string, idx int, atoms ...string) {
 	n := 0
 	for _, b := range fn.Blocks {
 		rt := returnOf(b)
-		if rt == nil || idx >= len(rt.Results) {
+		if rt == nil || idx >= len(rt.Results) || b == fn.Recover {
 			continue
 		}
 		n++
-		t := Render(rt.Results[idx])
+		t := Render(retValue(rt, idx))
 		for _, a := range atoms {
 			if !t.Has(a) {
 				r.Bad(k, d, w.posOr(rt.Pos(), fn), "missing "+a+" in "+clip(t.String(), 240))
@@ -1785,4 +1791,204 @@ func lastPos(b *ssa.BasicBlock) token.Pos {
 		}
 	}
 	return token.NoPos
+}
+
+// =====================================================================================
+// Ownership: no store through memory derived from a shared source
+
+// addrBase walks an address chain (field/index addressing) down to the object it addresses: a local Alloc or
+// a value (slice header / pointer) obtained elsewhere.
+func addrBase(a ssa.Value) ssa.Value {
+	for i := 0; i < 12; i++ {
+		switch x := a.(type) {
+		case *ssa.FieldAddr:
+			a = x.X
+		case *ssa.IndexAddr:
+			a = x.X
+		default:
+			return a
+		}
+	}
+	return a
+}
+
+// NoWriteThrough: fn contains no store whose target memory is reached through a value derived from atoms (e.g. an
+// element of a slice that belongs to a stored object or to a parameter), and no append that may write into its
+// spare capacity.
+func (r *Report) NoWriteThrough(key, fnKey string, atoms ...string) {
+	w := r.W
+	fn := w.Fn(fnKey)
+	d := fmt.Sprintf("%s never writes through memory derived from {%s} (no in-place mutation of shared backing storage)", fnKey, strings.Join(atoms, ", "))
+	k := key + "|" + fnKey + "|" + strings.Join(atoms, ",")
+	if fn == nil {
+		r.Unres(k, d, "function not found")
+		return
+	}
+	w.FuncsAnalysed[fn] = true
+	n := 0
+	fns := append([]*ssa.Function{fn}, fn.AnonFuncs...)
+	for _, f := range fns {
+		for _, b := range f.Blocks {
+			for _, in := range b.Instrs {
+				switch x := in.(type) {
+				case *ssa.Store:
+					n++
+					base := addrBase(x.Addr)
+					if _, isLocal := base.(*ssa.Alloc); isLocal {
+						continue
+					}
+					if base == x.Addr {
+						continue // store to a plain pointer value (named result / captured var)
+					}
+					if Render(base).Has(atoms...) {
+						r.Bad(k, d, w.posOr(x.Pos(), f), "store through "+clip(Render(base).String(), 160))
+						return
+					}
+				case *ssa.Call:
+					if CalleeName(&x.Call) == "builtin.append" && len(x.Call.Args) > 0 {
+						// append(shared[:k], ...) writes into shared's backing array
+						if sl, ok := x.Call.Args[0].(*ssa.Slice); ok {
+							if _, isLocal := addrBase(sl.X).(*ssa.Alloc); !isLocal && Render(sl.X).Has(atoms...) {
+								r.Bad(k, d, w.posOr(x.Pos(), f), "append onto a re-slice of "+clip(Render(sl.X).String(), 160))
+								return
+							}
+						}
+					}
+				}
+			}
+		}
+	}
+	r.OK(k, d, w.FnPos(fn), fmt.Sprintf("%d stores examined", n))
+}
+
+// EffectSet: the set of callee names matching any of pats, called from functions reachable from fnKey (repo scope),
+// is a subset of allowed.
+func (r *Report) EffectSet(key, fnKey string, pats []string, allowed []string) {
+	w := r.W
+	fn := w.Fn(fnKey)
+	d := fmt.Sprintf("calls matching %v reachable from %s ⊆ {%s}", pats, fnKey, strings.Join(allowed, ", "))
+	k := key + "|" + fnKey
+	if fn == nil {
+		r.Unres(k, d, "function not found")
+		return
+	}
+	reach := w.ReachableFrom([]*ssa.Function{fn}, nil)
+	found := map[string]string{}
+	for f := range reach {
+		if len(f.Blocks) == 0 || !inRepoScope(f) {
+			continue
+		}
+		w.FuncsAnalysed[f] = true
+		for _, b := range f.Blocks {
+			for _, in := range b.Instrs {
+				ci, ok := in.(ssa.CallInstruction)
+				if !ok {
+					continue
+				}
+				n := CalleeName(ci.Common())
+				for _, p := range pats {
+					if strings.Contains(n, p) {
+						if _, ok := found[n]; !ok {
+							found[n] = FuncKey(f) + " at " + w.posOr(in.Pos(), f)
+						}
+					}
+				}
+			}
+		}
+	}
+	for _, n := range sortedKeys(found) {
+		ok := false
+		for _, a := range allowed {
+			if nameMatch(n, a) {
+				ok = true
+			}
+		}
+		kk := k + "|" + n
+		if ok {
+			r.OK(kk, d, found[n], "allowed")
+		} else {
+			r.Bad(kk, d, found[n], n+" is reachable but not in the allowed effect set")
+		}
+	}
+	r.OK(k+"|scanned", d, w.FnPos(fn), fmt.Sprintf("%d functions reachable, %d distinct matching callees", len(reach), len(found)))
+}
+
+// ErrorsNotDropped: in packages with the given prefixes, no call whose callee name contains any of pats and that
+// returns an error has its error result discarded.
+func (r *Report) ErrorsNotDropped(key string, pkgPrefixes []string, pats []string, minCalls int) {
+	w := r.W
+	d := fmt.Sprintf("no error returned by %v is discarded in %v", pats, pkgPrefixes)
+	n := 0
+	for k, fn := range w.Funcs {
+		if len(fn.Blocks) == 0 || !inRepoScope(fn) {
+			continue
+		}
+		ok := false
+		for _, p := range pkgPrefixes {
+			if strings.HasPrefix(k, p) {
+				ok = true
+			}
+		}
+		if !ok {
+			continue
+		}
+		for _, b := range fn.Blocks {
+			for _, in := range b.Instrs {
+				ci, ok := in.(ssa.CallInstruction)
+				if !ok {
+					continue
+				}
+				name := CalleeName(ci.Common())
+				hit := false
+				for _, p := range pats {
+					if strings.Contains(name, p) {
+						hit = true
+					}
+				}
+				if !hit {
+					continue
+				}
+				res := ci.Common().Signature().Results()
+				ei := -1
+				for i := 0; i < res.Len(); i++ {
+					if isErrorType(res.At(i).Type()) {
+						ei = i
+					}
+				}
+				if ei < 0 {
+					continue
+				}
+				n++
+				w.SitesExamined++
+				used := false
+				if v, ok := in.(*ssa.Call); ok && v.Referrers() != nil {
+					for _, ref := range *v.Referrers() {
+						switch x := ref.(type) {
+						case *ssa.DebugRef:
+						case *ssa.Extract:
+							if x.Index == ei && x.Referrers() != nil {
+								for _, rr := range *x.Referrers() {
+									if _, dbg := rr.(*ssa.DebugRef); !dbg {
+										used = true
+									}
+								}
+							}
+						default:
+							if res.Len() == 1 {
+								used = true
+							}
+						}
+					}
+				}
+				if !used {
+					r.Bad(key+"|"+k+"|"+name, d, w.posOr(in.Pos(), fn), "error result of "+name+" is discarded in "+k)
+				}
+			}
+		}
+	}
+	if n < minCalls {
+		r.Unres(key+"|min", d, fmt.Sprintf("only %d fallible calls found, expected >= %d", n, minCalls))
+		return
+	}
+	r.OK(key+"|scanned", d, "-", fmt.Sprintf("%d fallible call sites examined", n))
 }
